@@ -133,8 +133,15 @@ fn markdown_comments_parser() -> anyhow::Result<impl CommentsParser> {
             result.push_str(&comment[..prefix_idx]);
             // Replace "[//]:" with spaces.
             result.push_str("     ");
-            // Replace everything before the open delimiter with spaces (including the delimiter).
-            result.push_str(" ".repeat(open_idx - (prefix_idx + 5) + 1).as_str());
+            // Replace everything before the open delimiter with spaces (including the delimiter),
+            // keeping line breaks so that positions after them stay correct.
+            for c in comment[start_search..=open_idx].chars() {
+                if c == '\n' {
+                    result.push('\n');
+                } else {
+                    result.push_str(" ".repeat(c.len_utf8()).as_str());
+                }
+            }
             // Copy the comment's content.
             result.push_str(&comment[open_idx + 1..close_idx]);
             // Replace the close delimiter with a space.
